@@ -34,6 +34,7 @@ def run(tier):
   cc.model_check(rep, 'MC_Refs_quick' if tier == 'quick' else 'MC_Refs_thorough', timeout=3400)
   cc.expect_violation(rep, 'MC_Refs_dev', 'C04_Refs', key='control_DevKwEval_violates')
   cc.model_check(rep, 'MC_Refs_getbindings', timeout=900)
+  cc.model_check(rep, 'MC_Refs_kw', timeout=900)       # keyword-only / catch-all names overridden by caller keywords
   if tier == 'thorough':
     cc.replay_scenarios(rep, 'GinCore_Scen_refs', max_files=1500, nontrivial=_nontrivial, depth=4, timeout=1200)
   n = 500 if tier == 'quick' else 6000
